@@ -2,7 +2,7 @@
 
 Proof: Pyc/Props/C07.lean (retry loop: retry_sound, retry_stuck, loaded_iff_loadable, retry_perm, self/mutual reference; lookup:
 same_object, resolved_is_the_carrier, dangling_is_error, written_refs_resolve; made-up samplers for textures naming an image:
-direct_one_sampler_per_image, direct_sampler_is_the_param, direct_every_property_mapped, negative direct_throwaway_breaks; deps_precede over the load-order table that
+direct_one_sampler_per_image, direct_sampler_is_the_param, direct_every_property_mapped, direct_params_exactly_named, negative direct_throwaway_breaks; deps_precede over the load-order table that
 translators/load_order.py regenerates from the AST on every run).
 Correspondence: random instance_node graphs (forward, repeated, chained, cyclic, self, dangling) in <library_nodes> and among the
 roots of a <visual_scene>: which nodes the real loader loads, in which order, how many broken-reference errors vs Pyc.Refs.loadNodes;
